@@ -367,6 +367,8 @@ pub fn run() -> i32 {
     // words typed in Americanist notation print in it by default; a romaniser that matches nothing in them (or only removes boundaries) leaves that rendering alone
     let am_words = ["¢a", "ła.ña", "ƛa.λa", "ˈ¢a.ła", "t͡sa.ɬa"];
     let am_aliases: Vec<(Vec<&str>, bool)> = vec![(vec!["b > B"], false), (vec!["[+nasal, +long] > +N"], false), (vec!["i:[+stress] > +@{acute}"], false), (vec!["$ > *"], true), (vec!["b > B", "$ > *"], true)];
+    // ... and one that does match puts its own string there, letter for letter, also when that string looks like Americanist input
+    let am_subst: Vec<(&str, &str, &str)> = vec![("a > ɬ", "a", "ɬ"), ("a > ɲɲ", "a", "ɲɲ"), ("a > t͡s", "a", "t͡s"), ("a > at͡ɬ", "a", "at͡ɬ"), ("a > A", "a", "A")];
     let mut tam = Acc::default();
     for (lines, strip) in &am_aliases { for wtxt in am_words { for rl in [RULES[0], RULES[1]] {
         tam.evals += 1;
@@ -378,6 +380,17 @@ pub fn run() -> i32 {
             (Out::Ok(Ok(v)), Some(w)) if *v == w => { tam.rewritten += 1; }
             (_, None) => tam.skipped += 1,
             (g, Some(w)) => tam.viols.push(Viol { key: format!("romaniser-americanist|{}|{}|{}", lines.join(" ;; "), rl.join(" ;; "), wtxt), desc: format!("romaniser {:?} matches nothing in `{}` (rules {:?}): the default rendering is {:?}, printed {:?}", lines, wtxt, rl, w, g), case: json!({"kind": "amer"}) }),
+        }
+    } } }
+    for (line, from, to) in &am_subst { for wtxt in am_words { for rl in [RULES[0], RULES[1]] {
+        tam.evals += 1;
+        let plain = guarded(budget_for(14, 60) * 2, || asca::run(&[group(rl)], &[wtxt.to_string()], &[], &[]).map_err(|e| format!("{:?}", e)));
+        let with = guarded(budget_for(14, 60) * 2, || asca::run(&[group(rl)], &[wtxt.to_string()], &[], &[line.to_string()]).map_err(|e| format!("{:?}", e)));
+        let want = match &plain { Out::Ok(Ok(v)) => Some(v.iter().map(|t| t.replace(from, to)).collect::<Vec<_>>()), _ => None };
+        match (&with, want) {
+            (Out::Ok(Ok(v)), Some(w)) if *v == w => { tam.rewritten += 1; }
+            (_, None) => tam.skipped += 1,
+            (g, Some(w)) => tam.viols.push(Viol { key: format!("romaniser-americanist|{}|{}|{}", line, rl.join(" ;; "), wtxt), desc: format!("romaniser `{}` on the Americanist word `{}` (rules {:?}): the default rendering with every `{}` replaced is {:?}, printed {:?}", line, wtxt, rl, from, w, g), case: json!({"kind": "amer"}) }),
         }
     } } }
     r.boxes.push(json!({"box": "Americanist words under romanisers that match none of their segments", "comparisons": tam.evals, "equal_to_default": tam.rewritten}));
